@@ -35,7 +35,9 @@ CHECKS = {
              "permutation of the pre-order when node identities are distinct - which holds for the unfolding below every "
              "node of every consistent link state (C05_exactly_once_on_every_forest, via C01). Tie: every shape <= 6 nodes (every start "
              "node, standalone and embedded in a larger tree) + random trees, all five real iterators drained and "
-             "compared in Coq; tree unchanged afterwards.",
+             "compared in Coq; tree unchanged afterwards; each case also carries the raw parent/children links of the "
+             "live objects and the driver requires tree_of (Model/Abs.v) of those links to equal the iterated tree "
+             "(the abstraction function run against the code).",
         design="6/C05", note="Generator laziness is not modelled (outputs compared as lists).",
         technique="Coq proof (instance of the C06 theorems + permutation lemmas) + exhaustive small-scope correspondence"),
     "C06": dict(
